@@ -140,7 +140,8 @@ class Hist:
 
     def __init__(self, doc):
         self.doc = copy.deepcopy(doc)
-        self.files = {'f0.par'}
+        self.planted = [it['name'] for it in (doc.get('plant') or [])]
+        self.files = {'f0.par'} | set(self.planted)
         self.cur = 'f0.par'
         self.nfile = 1
         self.clock = 0
@@ -200,7 +201,7 @@ class Hist:
 
 def gen_op(rng, h, kinds=None):
     doc = h.doc
-    k = rng.choice(kinds or ['write_new', 'write_copy', 'write_over', 'write_existing_other', 'append_rows', 'append_rows',
+    k = rng.choice(kinds or ['write_new', 'write_copy', 'write_over', 'write_existing_other', 'write_planted', 'append_rows', 'append_rows',
                              'append_rows_rec', 'append_pairs', 'append_mixed', 'append_empty', 'append_missing', 'reread'])
     if k in ('write_new', 'write_copy'):
         name = 'f%d.par' % h.nfile
@@ -210,6 +211,12 @@ def gen_op(rng, h, kinds=None):
         return {'op': 'write', 'path': None, 'comments': ['c'], 'tag': k}
     if k == 'write_existing_other':
         return {'op': 'write', 'path': rng.choice(sorted(h.files)), 'comments': ['c'], 'tag': k}
+    if k == 'write_planted':
+        if not h.planted:
+            return gen_op(rng, h, ['write_existing_other'])
+        name = rng.choice(h.planted)
+        cls = [it['cls'] for it in doc['plant'] if it['name'] == name][0]
+        return {'op': 'write', 'path': name, 'comments': ['c'], 'tag': 'write_onto_%s' % cls}
     if k in ('append_rows', 'append_rows_rec'):
         ti = rng.randrange(len(doc['tables']))
         lower = rng.random() < 0.5
@@ -264,6 +271,8 @@ def gen_op(rng, h, kinds=None):
 
 def gen_history(rng, nops):
     doc = stabilise_doc(rng, G.gen_doc(rng, 'ndarray', ntables=rng.choice([1, 2, 2, 3]), allow_u=False, max_rows=3))
+    if rng.random() < 0.7:
+        doc['plant'] = gen_plant(rng, doc)
     h = Hist(doc)
     ops = []
     for _ in range(nops):
@@ -344,6 +353,33 @@ def make_text_seed(rng, doc):
     return doc
 
 
+PLANT_CLASSES = ['zero', 'newline', 'blanks', 'yanny', 'garbage', 'dir', 'readonly']
+
+
+def twin_text(doc):
+    """another valid yanny file with the SAME table names but other declarations (columns reversed, one more column)"""
+    v = copy.deepcopy(doc)
+    v.pop('text_seed', None)
+    for t in v['tables']:
+        t['cols'] = list(reversed(t['cols'])) + [{'name': 'zz9', 'code': 'i8', 'arr': None}]
+        t['rows'] = [list(reversed(r)) + [k] for k, r in enumerate(t['rows'])]
+        for c in t['cols']:
+            c.pop('unsized', None)
+    v['hdr'] = [['twin', 'yes']]
+    return render_text(v)
+
+
+def gen_plant(rng, doc, classes=None):
+    """files that are already in the directory when the history starts: the possible targets of a write"""
+    out = []
+    for k, cls in enumerate(classes if classes is not None else rng.sample(PLANT_CLASSES, rng.randint(1, 3))):
+        data = {'zero': b'', 'newline': b'\n', 'blanks': rng.choice([b' ', b' \t \n\n', b'\t']),
+                'yanny': twin_text(doc).encode('latin-1'), 'garbage': rng.choice([b'\x00\xff\xfe}{', b'typedef struct {', b'FOO 1 2\n"']),
+                'dir': b'', 'readonly': b'kept 1\n'}[cls]
+        out.append({'name': 'x%d.par' % k, 'cls': cls, 'hex': data.hex()})
+    return out
+
+
 def gen_text_history(rng, nops):
     doc = make_text_seed(rng, stabilise_doc(rng, G.gen_doc(rng, 'ndarray', ntables=rng.choice([1, 1, 2]), allow_u=False, max_rows=2)))
     h = Hist(doc)
@@ -375,18 +411,21 @@ SEED_DOC = {'comments': ['seed'], 'hdr': [['k', 'v w']], 'enums': [['state', 'ST
 
 def exhaustive_histories(maxlen):
     """all op sequences of length <= maxlen over a two-table seed document (thorough tier)"""
-    kinds = ['write_new', 'write_over', 'append_rows', 'append_rows_rec', 'append_pairs', 'append_empty', 'append_missing', 'reread']
+    kinds = ['write_new', 'write_over', 'write_planted', 'append_rows', 'append_rows_rec', 'append_pairs', 'append_empty', 'append_missing',
+             'reread']
+    seed = copy.deepcopy(SEED_DOC)
+    seed['plant'] = [{'name': 'x0.par', 'cls': 'zero', 'hex': ''}, {'name': 'x1.par', 'cls': 'newline', 'hex': '0a'}]
     out = []
     for n in range(1, maxlen + 1):
         for seq in itertools.product(kinds, repeat=n):
             rng = __import__('random').Random('exh-' + '-'.join(seq))
-            h = Hist(SEED_DOC)
+            h = Hist(seed)
             ops = []
             for k in seq:
                 op = gen_op(rng, h, [k])
                 h.apply(op)
                 ops.append(op)
-            out.append((copy.deepcopy(SEED_DOC), ops))
+            out.append((copy.deepcopy(seed), ops))
     return out
 
 
@@ -453,6 +492,10 @@ def case_term(doc, raw, ops, res, exps):
     if doc.get('text_seed'):
         return '(CText %s %s %s %s %s)' % (G.blit(render_text(doc)), G.blit('f0.par'), C.boollit(raw),
                                            state_term(res['init'], raw, G.expected(doc)), C.coq_list(steps))
+    if doc.get('plant'):
+        extra = C.coq_list(['(%s, %s)' % (G.blit(it['name']), G.blit(b'' if it['cls'] == 'dir' else bytes.fromhex(it['hex'])))
+                            for it in doc['plant']])
+        return '(CHistX %s %s %s %s %s)' % (G.doc_term(doc), G.blit('f0.par'), C.boollit(raw), extra, C.coq_list(steps))
     return '(CHist %s %s %s %s)' % (G.doc_term(doc), G.blit('f0.par'), C.boollit(raw), C.coq_list(steps))
 
 
@@ -496,10 +539,15 @@ def direct_checks(doc, raw, ops, res):
         if got not in ('ok', 'warning', 'PydlutilsException'):
             bad.append((k, 'raised-%s' % got, st.get('msg', '')))
             break
+        if st.get('caller_data_changed'):
+            bad.append((k, 'caller-data-modified', 'the dict / record arrays / comment list handed to %s differ after the call' % op['op']))
+        if st.get('bystander_changed'):
+            bad.append((k, 'another-live-object-changed', 'a second yanny object alive in the process changed during %s' % op['op']))
         if got != want:
             # the outcome class itself is part of the property for the refusal paths
             if want == 'PydlutilsException' and op['op'] == 'write':
-                bad.append((k, 'write-replaced-existing-file' if got == 'ok' else 'write-over-existing-%s' % got, st.get('msg', '')))
+                bad.append((k, 'write-replaced-existing-file' if got == 'ok' else 'write-over-existing-%s' % got,
+                            st.get('msg', '') or 'write(%r) [%s] onto a name that exists returned without raising' % (op.get('path'), op.get('tag'))))
             elif want == 'PydlutilsException':
                 bad.append((k, 'append-to-missing-%s' % got, st.get('msg', '')))
             elif want == 'warning':
@@ -572,6 +620,8 @@ def oracle_check(rng, n):
 
 def job_of(ident, doc, raw, ops):
     j = {'id': ident, 'doc': doc, 'raw': raw, 'ops': ops}
+    if doc.get('plant'):
+        j['plant'] = doc['plant']
     if doc.get('text_seed'):
         j['text'] = render_text(doc)
     return j
